@@ -59,6 +59,10 @@ def normal_summary(I):
         from math import comb
         from .interp import is_num
         n, k = args
+        from .interp import IdxArr as _IdxArr
+        if isinstance(k, _IdxArr):
+            from .intrinsics import _arr
+            k = _arr(k)
         if not (is_num(n) and D(n).is_const() and D(n).value().denominator == 1):
             raise nf.Undecided("binom with a non-concrete upper argument")
         n = int(D(n).value())
